@@ -4,13 +4,17 @@ import HcipyVerif.Model.Detector
 /-! Line-protocol front end of the C17 model (detectors).
 
 ```
-new noiseless <s> <dims>                one detector per `new`; dims = coarse shape, slowest first
+new noiseless <s> <dims>                one detector per `new`; dims = coarse shape, slowest first; <s> = one factor
+                                        (`Geom.uniform`) or a list of per-axis factors in the order of dims
 new noisy <s> <dims> <dark> <flat|->    NoisyDetector, photon noise off, read noise 0 (`pInit`; `0 -` = `allOff`)
 set flat|dark|sigma <list>              assign a parameter (one value per pixel); set photon 0|1
 int <power-list> <dt> <weight>          -> ok | err value
 read                                    -> ok <image-list>            (noiseless: `step`)
                                            ok <image-list> off|on     (noisy: `pStep`; the flag is `PSt.off` before the read-out)
                                            ok random off|on           (noisy with photon or read noise on)
+readrng <δ-list> <z-list>               noisy read-out with the random draws given (`pReadOutRng`): δ = Poisson draw − expectation,
+                                        z = standard-normal deviates of the read noise
+                                        -> ok <image-list> <lam-list|->   (lam = what the photon-noise stage is handed; `-` when it is off)
 tint input|foreign|plain                the grid label of the power handed to integrate (`tStep`)   -> ok
 tread                                   -> ok detector|input|foreign   (label of the image read out)
 
@@ -31,11 +35,23 @@ deriving BEq
 
 structure St where
   kind : Kind := .noiseless
-  geom : Geom := { dims := [] }
+  geom : Geom := Geom.uniform []
   st : Detector.St Rat := {}
   pst : PSt Rat := { flat := [], dark := [], sigma := [] }
   rst : RSt Rat := {}
   tst : TSt := {}
+
+/-- `<s>`: one factor for every axis, or a list of per-axis factors (same order and length as `dims`, none zero) -/
+def parseGeom? (s dims : String) : Option Geom :=
+  match parseNatList? dims with
+  | none => none
+  | some dims =>
+    match parseNat? s with
+    | some s => if s = 0 then none else some (Geom.uniform dims s)
+    | none =>
+      match parseNatList? s with
+      | some ss => if h : ss.length = dims.length then (if ss.contains 0 then none else some { dims := dims, ss := ss, hl := h }) else none
+      | none => none
 
 def showObs : Obs Rat → String
   | .done => "ok"
@@ -57,26 +73,32 @@ def apply (st : St) (op : Op Rat) : St × String :=
 def step (st : St) : List String → St × String
   | ["reset"] => ({}, "ok")
   | ["new", kind, s, dims] =>
-    match parseNat? s, parseNatList? dims with
-    | some s, some dims =>
-      if s = 0 then (st, "bad-op") else
+    match parseGeom? s dims with
+    | some g =>
       match kind with
-      | "noiseless" => ({ kind := .noiseless, geom := { dims := dims, s := s } }, "ok")
+      | "noiseless" => ({ kind := .noiseless, geom := g }, "ok")
       | _ => (st, "bad-op")
-    | _, _ => (st, "bad-op")
+    | none => (st, "bad-op")
   | ["new", "noisy", s, dims, dark, flat] =>
-    match parseNat? s, parseNatList? dims, parseRat? dark with
-    | some s, some dims, some dark =>
-      if s = 0 then (st, "bad-op") else
-      let n := size dims
+    match parseGeom? s dims, parseRat? dark with
+    | some g, some dark =>
+      let n := g.npix
       let flat? := if flat == "-" then some (List.replicate n (1 : Rat)) else parseRatList? flat
       match flat? with
       | some fl =>
         if fl.length ≠ n then (st, "bad-op") else
-        let g : Geom := { dims := dims, s := s }
         ({ kind := .noisy, geom := g, pst := pInit g dark fl }, "ok")
       | none => (st, "bad-op")
-    | _, _, _ => (st, "bad-op")
+    | _, _ => (st, "bad-op")
+  | ["readrng", d, z] =>
+    if st.kind != .noisy then (st, "bad-op") else
+    match parseRatList? d, parseRatList? z with
+    | some d, some z =>
+      if d.length ≠ st.geom.npix || z.length ≠ st.geom.npix then (st, "bad-op") else
+      let r := pReadOutRng st.geom st.pst d z
+      ({ st with pst := r.1 }, "ok " ++ showRatList r.2 ++ " " ++
+        (if st.pst.photon then showRatList (st.pst.lam st.geom) else "-"))
+    | _, _ => (st, "bad-op")
   | ["int", p, dt, w] =>
     match parseRatList? p, parseRat? dt, parseRat? w with
     | some p, some dt, some w => apply st (.integrate p dt w)
